@@ -52,6 +52,7 @@ int  mc_finish(void);
 int  mc_thorough(void);                 /* tier */
 const char *mc_arg(const char *name, const char *dflt);   /* --name=value extra args */
 long mc_arg_int(const char *name, long dflt);
+extern void (*mc_exit_hook)(void);   /* forked cells (mc_child_reset): called once when the library calls exit(), before the process ends - an exit handler that uses the library again */
 long mc_dlevel(void);        /* --dlevel=N: the runtime debug level of this run (the harness assigns it to libast_debug_level); N > 0 sends the library's own stderr chatter in workers to /dev/null, sanitizer reports stay scanned */
 int  mc_replaying(void);
 double mc_now(void);
